@@ -11,7 +11,15 @@ corr(): translator validation of every generated definition (driver on Float vs 
     BinaryThermodynamics._interfacialCompositionFromEq (real Al-Zr equilibrium records captured at run time, and
     synthetic record patterns fed through the real loop) and vs the real _createLookupBinary (RdrivingForceIndex,
     prefix fill), the direct oracle of the algebraic clauses on the real functions, and the MONITORED thermodynamic
-    clauses on grids over T, x, g (Al-Zr; Cu-Ti in thorough) and at observer callbacks of real Al-Zr / Ni-Cr-Al runs.
+    clauses on grids over T, x, g (Al-Zr in BOTH shipped descriptions - kawin/tests ALZR_TDB with Al3Zr written 0.75:0.25 and
+    examples/AlScZr.tdb restricted to AL-ZR with Al3Zr written 3:1 - and their mutual agreement; Cu-Ti in thorough) and at
+    observer callbacks of real Al-Zr / Ni-Cr-Al runs.
+    Array call forms of BinaryThermodynamics.getInterfacialComposition (scalar/array T x scalar/array g; constant, ramp, cycle,
+    permuted, repeated temperature arrays; incompatible lengths): model KawinV.IC.getIC (broadcast + dispatch) vs the calls the
+    real method makes on a recording pattern backend, direct oracle "entry i = answer for (T_i, g_i)", and on the real
+    thermodynamics array answer = scalar answers and DF(x_alpha_i, T_i) = g_i, also through getDrivingForce(array x, array T).
+    ExtraGibbsModel (the pycalphad Model carrying GE): GM and G traced through the property getters of the real class
+    (extraGM, extraG), validated on real model objects with site-ratio sums 1 and 4.
 """
 import math, os, sys, types, warnings
 import numpy as np
@@ -20,8 +28,8 @@ from vlib import Result, enc_list, f2b, Toks, close
 
 PROP = 'C12'
 META = {
-    'level_text': 'PARTLY DECIDED BY PROOF (Gibbs-Thomson/critical-radius consistency, both growth laws, clamp, sentinel scan; that x_alpha(g) inverts the driving force, monotonicity and agreement of the four methods are thermodynamics of the backend: explicit hypotheses of the theorems, only monitored by the oracle). Lean 4 theorems about definitions REGENERATED from the kawin sources on every run (concolic trace of computeGibbsThomsonContribution, volumetricDrivingForce, nucleationBarrier, _growthRateOutputFromCurvature, PrecipitateModel._singleGrowthMulti and _singleGrowthBinary) and about a hand model (Model/ICScan.lean) of the sentinel loop of _interfacialCompositionFromEq, of RdrivingForceIndex / the prefix fill of _createLookupBinary and of the Rmin clamp: the Gibbs-Thomson energy at the unclamped critical radius equals the chemical driving force (dG - gExtra(Rcrit) = 0, with strain energy and shape factor); the multicomponent growth rate as the KWN model evaluates it is positive above, negative below and zero at Rcrit for mc > 0, kinetic factor > 0 (after the repair of the strain-energy double count, see known_findings); clamp made explicit (classes between 2f*gamma/dGvol and Rmin grow although they are below the recorded Rcrit, with witness); binary growth sign = sign(x - x_alpha_i); binary conditional: IF DF(x_alpha(g)) = g (+ offset) and DF is monotone (or x_alpha strictly increasing and x in its range) THEN classes above Rcrit grow and below shrink; sentinel scan: entry g = first two-phase record at GE index g, -1 iff none (records ordered by GE index; necessity of the ordering shown by witness), monotone instability pattern preserved, RdrivingForceIndex = last index of the unstable prefix (and = 0 for the empty and for the FULL prefix, the latter making the all-unstable branch unreachable - stated as theorem). Generated definitions are validated numerically against the Python functions on every run; the hand model is tied by differential correspondence on real pycalphad equilibrium records and synthetic patterns run through the real loop.',
-    'level_note': 'MONITORED ONLY (oracle on the real implementation, no theorem - these are thermodynamic facts about pycalphad + the TDB files): the hypotheses of the binary conditional themselves, i.e. x_alpha(g) is the composition at which the driving force equals g within the documented 1 J/mol offset, the driving force changes sign at the planar solvus and increases with supersaturation, x_alpha(g) rises monotonically with g, the sentinel is monotone in g, the four driving-force methods agree in sign away from the solvus and tangent/approximate/sampling agree in value to the offset for stoichiometric Al3Zr (the curvature method is a first-order expansion: value agreement only near the solvus, recorded finding), and "classes above pData.Rcrit grow, below shrink" at observer callbacks of real Al-Zr and Ni-Cr-Al runs. The proved part is algebra about the traced formulas plus the scan logic; the thermodynamic core of the property is not provable here and is only sampled. Trusted: Lean kernel + Mathlib (propext, Classical.choice, Quot.sound); the tracer tools/py2lean/sym.py (output re-validated numerically on every run); exact field arithmetic instead of IEEE doubles; pycalphad Workspace / enumerate_composition_sets is an input of the scan model (its records are captured, not modelled).',
+    'level_text': 'PARTLY DECIDED BY PROOF (Gibbs-Thomson/critical-radius consistency, both growth laws, clamp, sentinel scan; that x_alpha(g) inverts the driving force, monotonicity and agreement of the four methods are thermodynamics of the backend: explicit hypotheses of the theorems, only monitored by the oracle). Lean 4 theorems about definitions REGENERATED from the kawin sources on every run (concolic trace of computeGibbsThomsonContribution, volumetricDrivingForce, nucleationBarrier, _growthRateOutputFromCurvature, PrecipitateModel._singleGrowthMulti and _singleGrowthBinary) and about a hand model (Model/ICScan.lean) of the sentinel loop of _interfacialCompositionFromEq, of RdrivingForceIndex / the prefix fill of _createLookupBinary and of the Rmin clamp: the Gibbs-Thomson energy at the unclamped critical radius equals the chemical driving force (dG - gExtra(Rcrit) = 0, with strain energy and shape factor); the multicomponent growth rate as the KWN model evaluates it is positive above, negative below and zero at Rcrit for mc > 0, kinetic factor > 0 (after the repair of the strain-energy double count, see known_findings); clamp made explicit (classes between 2f*gamma/dGvol and Rmin grow although they are below the recorded Rcrit, with witness); binary growth sign = sign(x - x_alpha_i); binary conditional: IF DF(x_alpha(g)) = g (+ offset) and DF is monotone (or x_alpha strictly increasing and x in its range) THEN classes above Rcrit grow and below shrink; sentinel scan: entry g = first two-phase record at GE index g, -1 iff none (records ordered by GE index; necessity of the ordering shown by witness), monotone instability pattern preserved, RdrivingForceIndex = last index of the unstable prefix (and = 0 for the empty and for the FULL prefix, the latter making the all-unstable branch unreachable - stated as theorem); array call forms of BinaryThermodynamics.getInterfacialComposition (model KawinV.IC.getIC = _process_TG_arrays + the dispatch "one vectorised call iff len(np.unique(T)) == 1"): the vectorised path is taken only when every T_i equals T_0, and IF the vectorised evaluation of the backend is the list of its scalar evaluations THEN for every temperature array (constant, ramp, cycle, permutation, repeats) and every documented call form the array answer is the element-wise map of the scalar answers (getIC_eq_zipWith, getIC_scalar_T, getIC_scalar_g), with the witness that "first == last" does not imply all equal and that a dispatch on it answers a thermal cycle at T_0 (firstLast_not_allEqual, firstLast_dispatch_wrong); ExtraGibbsModel (GM and G REGENERATED from the property getters of the real class): G = N GM, the extra energy GE enters the formula energy as N GE (extraG_normalisation), both properties describe the same extra energy for every site-ratio sum N (extra_energy_same), the unknown the tangent method solves for through G is the driving force per mole of atoms (tangent_GE_per_atom), and the variant that adds GE after the normalisation agrees only for N = 1 or GE = 0 and makes the tangent unknown N times larger (extraG_after_eq_iff, tangent_GE_after, witness N = 4). Generated definitions are validated numerically against the Python functions on every run; the hand model is tied by differential correspondence on real pycalphad equilibrium records and synthetic patterns run through the real loop.',
+    'level_note': 'MONITORED ONLY (oracle on the real implementation, no theorem - these are thermodynamic facts about pycalphad + the TDB files): the hypotheses of the binary conditional themselves, i.e. x_alpha(g) is the composition at which the driving force equals g within the documented 1 J/mol offset, the driving force changes sign at the planar solvus and increases with supersaturation, x_alpha(g) rises monotonically with g, the sentinel is monotone in g, the four driving-force methods agree in sign away from the solvus and tangent/approximate/sampling agree in value to the offset for stoichiometric Al3Zr (the curvature method is a first-order expansion: value agreement only near the solvus, recorded finding), the same clauses on the second shipped description of Al-Zr (examples/AlScZr.tdb restricted to AL-ZR, Al3Zr written 3:1, 4 atoms per formula unit) and the agreement of the two descriptions in x_alpha(T, g) and in the driving force of every method, the hypothesis of the dispatch theorems (vectorised evaluation of _interfacialComposition = scalar evaluations: array answers compared with the scalar queries entry by entry, sentinels included, and DF(x_alpha_i, T_i) = g_i for every entry of every array form), and "classes above pData.Rcrit grow, below shrink" at observer callbacks of real Al-Zr and Ni-Cr-Al runs. The proved part is algebra about the traced formulas plus the scan logic; the thermodynamic core of the property is not provable here and is only sampled. Trusted: Lean kernel + Mathlib (propext, Classical.choice, Quot.sound); the tracer tools/py2lean/sym.py (output re-validated numerically on every run); exact field arithmetic instead of IEEE doubles; pycalphad Workspace / enumerate_composition_sets is an input of the scan model (its records are captured, not modelled).',
     'technique': 'Lean 4 proof over ordered fields about source-regenerated definitions + translator validation + model/implementation differential correspondence on captured equilibrium records + direct oracle on thermodynamic grids and run observers',
     'design_ref': 'DESIGN.md section 6, C12',
 }
@@ -32,12 +40,15 @@ MONITORED = [
     'x_alpha(g) rises strictly with g; the sentinel -1 is monotone in g (once unstable, unstable for every larger g) - grid over T, g',
     'four driving-force methods agree in sign away from the solvus; tangent/approximate/sampling agree in value to the offset (stoichiometric Al3Zr); curvature agrees in value near the solvus only',
     'at observer callbacks of real Al-Zr and Ni-Cr-Al runs: size classes larger than pData.Rcrit grow, smaller ones shrink (class containing Rcrit and clamped states skipped)',
+    'the clauses above also hold for Al-Zr as described in examples/AlScZr.tdb (Al3Zr written 3:1, site-ratio sum 4), and the two descriptions agree: x_alpha(T, g) to 1e-6, driving force of each method to the offset (sampling to 1e-3 J/mol)',
+    'array call forms (scalar/array T x scalar/array g; constant, ramp, cycle, permuted, repeated T): every entry of the array answer equals the scalar query at (T_i, g_i) (sentinel pattern identical) and DF(x_alpha_i, T_i) = g_i within the offset, also through getDrivingForce(array x, array T)',
 ]
 ASSUMPTIONS = [
     'valid parameters: gamma > 0, Vm > 0, thermodynamic shape factor f > 0, kinetic factor > 0, mc > 0, D > 0, effective diffusion distance > 0, R > 0',
     'constant aspect ratio and constant strain energy (the thermodynamic factor and the strain energy do not depend on R); checked on the real shape/strain objects on every run',
     'unclamped critical radius (2 f gamma / dGvol >= Rmin) for the sign statements; the clamped case is stated separately',
     'equilibrium records arrive ordered by GE index (checked on every captured enumeration); compositions of real records are never -1',
+    'array forms: non-empty T and gExtra of rank <= 1 without NaN (np.unique / == on NaN are outside the statement); the backend hypothesis (vectorised = scalar evaluations) is monitored, not proved',
     'exact-field theorems vs IEEE doubles: generated definitions compared with rtol 1e-9; NaN / inf outside the statement',
 ]
 TRUSTED = [
@@ -1132,16 +1143,20 @@ def extra_models():
     return out
 
 
-def part_extra_model(ctx, res, use_driver=True):
+def part_extra_model(ctx, res, use_driver=True, only=None):
     """ExtraGibbsModel: translator validation of extraGM / extraG (driver on Float vs the properties of the real class, on
     real model objects evaluated numerically and through the getters with floats) and the direct oracle: the extra energy
     the two properties describe is the same energy - G(GE) - G(0) = N (GM(GE) - GM(0)), G = N GM"""
     from pycalphad import variables as v
     items, lines = [], []
     for name, mod in extra_models():
-        for _ in range(ctx.n(12, 200)):
+        if only is not None and only['model'] != name:
+            continue
+        for _ in range(ctx.n(12, 200) if only is None else 1):
             T = ctx.rng.uniform(300, 1200)
             GE = ctx.rng.choice([0.0, 1.0, ctx.rng.uniform(0, 30000), -ctx.rng.uniform(0, 5000), 10 ** ctx.rng.uniform(0, 5)])
+            if only is not None:
+                T, GE = only['T'], only['GE']
             sub = {y: 1.0 for y in mod.site_fractions}
             sub.update({v.T: T, v.P: 101325.0, v.N: 1.0})
             s1 = dict(sub); s1[v.GE] = GE
@@ -1153,8 +1168,10 @@ def part_extra_model(ctx, res, use_driver=True):
             items.append(o)
             lines.append('gen.extra %s %s %s' % (f2b(o['ast']), f2b(GE), f2b(o['N'])))
     # the getters run on floats (no pycalphad): arbitrary ast, GE, N
-    for _ in range(ctx.n(200, 4000)):
+    for _ in range(0 if only is not None and only['model'] != 'getters-on-floats' else 1 if only is not None else ctx.n(200, 4000)):
         a, GE, N = -10 ** ctx.rng.uniform(2, 5.5), ctx.rng.choice([0.0, ctx.rng.uniform(-5000, 30000)]), ctx.rng.choice([1.0, 4.0, 5.0, 2.0, 13.0, ctx.rng.uniform(0.5, 30)])
+        if only is not None:
+            a, GE, N = only['ast'], only['GE'], only['N']
         gm, G = trace_extra_gibbs(lambda n, v0, d={'ast': a, 'GE': GE, 'N': N}: d[n])
         gm0, G0 = trace_extra_gibbs(lambda n, v0, d={'ast': a, 'GE': 0.0, 'N': N}: d[n])
         items.append(dict(model='getters-on-floats', T=None, GE=GE, ast=a, N=N, GM=float(gm), G=float(G), GM0=float(gm0), G0=float(G0), energy=float(gm), formulaenergy=float(G)))
@@ -1544,7 +1561,9 @@ def corr(ctx):
                 'generated definitions on Float vs the Python functions, and the algebraic clauses evaluated on the real outputs; non-trivial = positive volumetric driving force. '
                 '(2) scan model vs _interfacialCompositionFromEq: real Al-Zr equilibrium records captured from pycalphad for random T and g arrays (PSD-like decreasing, grids, random order, duplicates, beyond the stability limit) and synthetic record patterns '
                 '(ordered, shuffled, reversed; single-phase, two-phase in both orders, wrong pairs, three-phase, empty) run through the real loop; _createLookupBinary on sentinel patterns; non-trivial = at least one two-phase record and more than one record. '
-                '(3) monitored thermodynamic grid over T, g, x (Al-Zr, all four driving-force methods). (4) observer callbacks of real Al-Zr and Ni-Cr-Al runs. distinct = parameter tuple / (T, g, method) / run configuration')
+                '(3) monitored thermodynamic grid over T, g, x (Al-Zr in both shipped descriptions: site ratios 0.75:0.25 and 3:1, all four driving-force methods, and the two descriptions against each other); ExtraGibbsModel GM/G on real model objects (N = 1, 4) and through the getters on floats. '
+                '(3c) array call forms of getInterfacialComposition: T argument from {scalar, length-1, constant, ramp up/down, cycle up/down, permutation, repeats, first==last with random interior, all-but-one, abab}, g argument from {scalar, length-1, array, zeros, constant, other length}; pattern backend through the real method vs the dispatch model (calls) + element-wise oracle; real thermodynamics: array vs scalar queries and DF(x_alpha_i, T_i) = g_i, forced cycle cases reaching beyond the stability limit; non-trivial = more than one condition and not isothermal. '
+                '(4) observer callbacks of real Al-Zr and Ni-Cr-Al runs. distinct = parameter tuple / (T, g, method) / (T array, g array) / run configuration')
     res.monitored = list(MONITORED)
     import kwnruns
     errors = []
@@ -1684,7 +1703,7 @@ def replay(ctx, entry):
     elif c.get('batch'):
         replay_batch(ctx, res, c)
     elif 'model' in c and 'ast' in c:
-        part_extra_model(ctx, res, use_driver=False)
+        part_extra_model(ctx, res, use_driver=False, only=c)
     elif c.get('crossdb'):
         part_crossdb(ctx, res, [c['T']])
     elif 'system' in c and 'T' in c:
@@ -1694,4 +1713,5 @@ def replay(ctx, entry):
         return None
     for w in res.violations:
         print('  ', w['key'], w['what'], w['observed'], w['required'])
-    return not res.violations
+    # the case fails if the replayed key shows up again or anything that is not a recorded finding does
+    return not [w for w in res.violations if w['key'] == v['key']] and not _new_violations(res)
